@@ -140,7 +140,10 @@ Known == {"reject", "find", "find_index", "has", "append", "prepend", "upcase", 
           "modulo", "abs", "at_least", "at_most", "strip_newlines", "newline_to_br", "safe"}
 
 \* Apply a filter.  `args` are evaluated positional arguments; cfg carries autoescape.
+MathFilters == {"plus", "minus", "times", "divided_by", "modulo", "abs", "at_least", "at_most"}
 Apply(name, left, args, cfg) ==
+  \* booleans as numbers (Python's True == 1) are UNSPECIFIED
+  IF name \in MathFilters /\ (left.t = "bool" \/ \E i \in DOMAIN args : args[i].t = "bool") THEN Err("UNSPEC") ELSE
   LET ae == cfg.autoescape
       ls == ToStr(left)
       lsafe == ae /\ IsSafe(left)
